@@ -35,7 +35,8 @@ CONSTANTS Builds, BuildRec, Names, Chars, Carry, Cfg, D, ChartDesc,
           InitModes,    \* mode files a behaviour may start with
           SetModes,     \* modes SetMode may record
           Xs,           \* the X numerators an uploader run may draw
-          MaxInc, MaxRun, MaxDown, MaxSet, MaxWork
+          MaxInc, MaxRun, MaxDown, MaxSet, MaxWork,
+          Phased        \* TRUE: once the worker has started the client is quiet (worker steps commute with client steps)
 
 A == INSTANCE Approval
 W == INSTANCE WorkerChart
@@ -195,9 +196,12 @@ RunUploader(x, up) ==
 (* task queue does); merging a day writes one line per object stored for it.    *)
 Objs(st, d) == {o \in st : o.wk = d}
 MergedDay(st, d) == [day |-> d, n |-> Cardinality(Objs(st, d)), lines |-> Objs(st, d)]
-WorkDays == LET ds == {o.wk : o \in store} \cup {g.day : g \in merged} IN IF ds = {} THEN {day} ELSE ds
-MergeRanges == {<<d, d>> : d \in WorkDays} \cup {<<d - 1, d>> : d \in WorkDays}
-                 \cup {<<a, b>> \in WorkDays \X WorkDays : a < b /\ b - a <= 14}
+WorkDays == LET ds == {o.wk : o \in store} IN IF ds = {} THEN {day} ELSE ds
+MinD(S) == CHOOSE d \in S : \A x \in S : d <= x
+MaxD(S) == CHOOSE d \in S : \A x \in S : d >= x
+(* the requests offered: a stored week's day, the day before with it, all stored weeks at once *)
+WorkRanges == {<<d, d>> : d \in WorkDays} \cup {<<d - 1, d>> : d \in WorkDays} \cup {<<MinD(WorkDays), MaxD(WorkDays)>>}
+MergeRanges == WorkRanges
 Merge(s, e) ==
     /\ nWork < MaxWork
     /\ merged' = {g \in merged : g.day \notin s..e} \cup {MergedDay(store, d) : d \in s..e}
@@ -217,7 +221,7 @@ RangeDays(mg, s, e) == {g \in mg : g.day \in s..e}
 RangeLines(mg, s, e) == UNION {g.lines : g \in RangeDays(mg, s, e)}
 ValSet(f) == {[p |-> t[1], c |-> t[2], k |-> t[3], v |-> f[t]] : t \in {t \in DOMAIN f : f[t] > 0}}
 
-ChartRanges == {<<a.day, b.day>> : a, b \in merged} \cup (IF merged = {} THEN {<<day, day>>} ELSE {})
+ChartRanges == WorkRanges
 Chart(s, e) ==
     /\ nWork < MaxWork /\ s <= e
     /\ IF \E d \in s..e : ~\E g \in merged : g.day = d
@@ -231,10 +235,11 @@ Chart(s, e) ==
     /\ last' = Lbl("chart", "", "", "", 0, TRUE, s, e)
     /\ UNCHANGED <<base, day, tod, wend, mf, files, local, ready, uploaded, store, merged, hist, built, nInc, nRun, nDown, nSet>>
 
-Next == \/ \E p \in Builds, n \in Names : Inc(p, n)
-        \/ \E i \in Targets : Tick(i)
-        \/ \E m \in SetModes : SetMode(m)
-        \/ \E x \in Xs, up \in BOOLEAN : RunUploader(x, up)
+Next == \/ /\ Phased => nWork = 0
+           /\ \/ \E p \in Builds, n \in Names : Inc(p, n)
+              \/ \E i \in Targets : Tick(i)
+              \/ \E m \in SetModes : SetMode(m)
+              \/ \E x \in Xs, up \in BOOLEAN : RunUploader(x, up)
         \/ \E r \in MergeRanges : Merge(r[1], r[2])
         \/ \E r \in ChartRanges : Chart(r[1], r[2])
 Spec == Init /\ [][Next]_vars
@@ -343,6 +348,13 @@ TypeOK == /\ \A r \in local \cup ready \cup uploaded \cup store : r.x \in Xs /\ 
 (* the tabulated configuration semantics agree with Approval.tla on every report met *)
 TablesAgree == /\ \A l \in local : UploadRep(l).data = UploadRepA(l)
                /\ \A r \in ready \cup uploaded \cup store \cup {UploadRep(l) : l \in local} \cup local : ServerOK(r) = ServerOKA(r)
+
+(* simulation walks are kept productive: no uploader run, merge or chart that *)
+(* cannot change or observe anything, no re-recording of the same mode        *)
+SimFocus == /\ last'.op = "run" => (cvars' # cvars \/ (EffMode(mf) = "off" /\ files # {}))
+            /\ last'.op = "merge" => store # {}
+            /\ last'.op = "chart" => store # {}
+            /\ last'.op = "setmode" => mf' # mf
 
 View == <<day, tod, wend, mf, files, local, ready, uploaded, store, merged, charts, resp, hist, built, nInc, nRun, nDown, nSet, nWork>>
 =============================================================================
